@@ -42,11 +42,13 @@ def run(ck):
     ex = build(ck)
     P, A, S = ex["h_c11"], ex["h_c11a"], ex["h_c11s"]
     full = ["--init=13"]          # O0 O1 O2 all enabled with interval 1
+    grow = ["--init=4"]           # O0 O1 enabled, O2 off: with chunk 2 the next enable reallocates the list
     if ck.tier == "quick":
         ck.explore(P, ["--depth=3", "--trunc=1"], "d3-b1", budget=1, deadline_s=70, jobs=JOBS)
         ck.explore(P, ["--depth=3", "--trunc=1"] + full, "d3-b2-full", budget=2, deadline_s=70, jobs=JOBS)
-        ck.explore(A, ["--depth=2", "--trunc=1"], "d2-b1-asan", budget=1, deadline_s=30, jobs=JOBS)
-        ck.explore(S, ["--depth=2", "--trunc=1"], "d2-b2-chunk2-asan", budget=2, deadline_s=60, jobs=JOBS)
+        ck.explore(A, ["--depth=2", "--trunc=1"], "d2-b1-asan", budget=1, deadline_s=50, jobs=JOBS)
+        ck.explore(S, ["--depth=2", "--trunc=1"], "d2-b1-chunk2-asan", budget=1, deadline_s=50, jobs=JOBS)
+        ck.explore(S, ["--depth=2", "--trunc=1"] + grow, "d2-b2-chunk2-asan-grow", budget=2, min_budget=2, deadline_s=30, jobs=JOBS)
     else:
         ck.explore(P, ["--depth=4", "--trunc=1"], "d4-b1", budget=1, deadline_s=500, jobs=JOBS)
         ck.explore(P, ["--depth=3", "--trunc=1"], "d3-b2", budget=2, min_budget=2, deadline_s=360, jobs=JOBS)
@@ -55,7 +57,7 @@ def run(ck):
         ck.explore(P, ["--depth=3", "--trunc=60"], "d3-b1-every-insn", budget=1, min_budget=1, deadline_s=240, jobs=JOBS)
         ck.explore(A, ["--depth=3", "--trunc=1"], "d3-b1-asan", budget=1, deadline_s=150, jobs=JOBS)
         ck.explore(S, ["--depth=3", "--trunc=1"], "d3-b1-chunk2-asan", budget=1, deadline_s=150, jobs=JOBS)
-        ck.explore(S, ["--depth=2", "--trunc=1"], "d2-b2-chunk2-asan", budget=2, min_budget=2, deadline_s=100, jobs=JOBS)
+        ck.explore(S, ["--depth=3", "--trunc=1"] + grow, "d3-b2-chunk2-asan-grow", budget=2, min_budget=2, deadline_s=300, jobs=JOBS)
     ck.finish(vlib.mc_coverage(ck.parts, RULE), assumptions=ASSUME)
 
 
